@@ -1,6 +1,6 @@
 """C04: navigation attributes and sibling/ancestor helpers equal their definitions."""
 from contracts import mixins
-from pyvc import heapworld
+from pyvc import driver, heapworld
 
 from . import common, heap_props
 
@@ -9,7 +9,10 @@ KEYS = [("parent", "getter"), ("children", "getter"), ("iter_path_reverse", "met
         ("height", "getter"), ("depth", "getter")]
 LEMMAS = [
     {"id": "L6", "statement": "a function HEIGHT with hgt(n) = 0 for leaves and 1 + max over children exists in every finite "
-     "forest and equals the number of edges on the longest downward path", "status": "assumed bridge (Lean proof pending)"},
+     "forest and equals the number of edges on the longest downward path; any function with the recursive characterisation "
+     "equals it", "status": driver.lean_status("L6_height.lean")},
+    {"id": "L1", "statement": "filter_ne on a duplicate-free list holding x at position k = remove_at k (siblings)",
+     "status": driver.lean_status("L1_filter_ne.lean")},
 ]
 
 
